@@ -582,3 +582,72 @@ func eq(a, b []string) bool {
 
 // PathIs matches the leaf's field path.
 func (s Src) PathIs(path ...string) bool { return eq(s.Path, path) }
+
+// Defs returns the SSA values that may flow into v through phis and loads of
+// local cells (flow-sensitive for cells private to one function); anything else
+// is returned as it is.
+func Defs(v ssa.Value) []ssa.Value {
+	var out []ssa.Value
+	seen := map[ssa.Value]bool{}
+	var walk func(v ssa.Value)
+	walk = func(v ssa.Value) {
+		if seen[v] {
+			return
+		}
+		seen[v] = true
+		switch x := v.(type) {
+		case *ssa.Phi:
+			for _, e := range x.Edges {
+				walk(e)
+			}
+			return
+		case *ssa.UnOp:
+			if x.Op == token.MUL {
+				if al, ok := x.X.(*ssa.Alloc); ok {
+					var cands []storeCand
+					collectStores(al, nil, &cands)
+					flow := true
+					for _, sc := range cands {
+						if sc.ins.Parent() != al.Parent() || sc.val == nil {
+							flow = false
+						}
+					}
+					n := 0
+					for _, sc := range cands {
+						if sc.val == nil {
+							continue
+						}
+						if flow {
+							self := sc.ins
+							hit, _ := Reach{
+								Target: func(ins ssa.Instruction) bool { return ins == ssa.Instruction(x) },
+								Avoid: func(ins ssa.Instruction) bool {
+									if ins == self {
+										return false
+									}
+									for _, o := range cands {
+										if o.strong && o.ins == ins {
+											return true
+										}
+									}
+									return false
+								},
+							}.From(sc.ins)
+							if hit == nil {
+								continue
+							}
+						}
+						n++
+						walk(sc.val)
+					}
+					if n > 0 {
+						return
+					}
+				}
+			}
+		}
+		out = append(out, v)
+	}
+	walk(v)
+	return out
+}
